@@ -522,6 +522,19 @@ impl Relayer {
                 }
             }
 
+            // `into_view()` resets proposals_hash / extra_hash in the header from the body;
+            // the block must still be the one the (PoW-checked) compact header commits to.
+            if block.hash() != compact_block.calc_header_hash() {
+                return ReconstructionResult::Error(
+                    StatusCode::CompactBlockHasInvalidHeader.with_context(format!(
+                        "reconstructed block hash({}) != compact block hash({}): \
+                         proposals_hash or extra_hash is unmatched with the proposals, uncles or extension",
+                        block.hash(),
+                        compact_block.calc_header_hash(),
+                    )),
+                );
+            }
+
             ReconstructionResult::Block(block)
         } else {
             let missing_indexes: Vec<usize> = block_transactions
